@@ -402,6 +402,8 @@ where
                 }
             }
         }
+        // objects loaded before the write must not be served from the cache any more
+        self.cache.clear();
         let rc = Shared::new(obj);
         
         Ok(RcRef::new(r, rc))
